@@ -191,8 +191,13 @@ func buildGraphic(c Case) ([]byte, error) {
 		enc.SetCSel(u)
 		square(0, k)
 		k++
-		// ... and the register set back to the palette entry of its own number
-		enc.SetCReg(0, false, ivg.PaletteIndexColor(u))
+		// ... and another register overwritten and then set back to the palette entry of its own
+		// number (register u itself keeps what the incrementing write left in it: a second decode
+		// into the same Renderer must seed it afresh)
+		v := (u + 27) & 63
+		enc.SetCSel(v)
+		enc.SetCReg(0, false, ivg.RGBAColor(color.RGBA{0x30, 0x20, 0x10, 0xff}))
+		enc.SetCReg(0, false, ivg.PaletteIndexColor(v))
 		square(0, k)
 		k++
 	}
